@@ -11,21 +11,22 @@ Section Facts.
   Variable enc : A -> D.
   Variable dec : D -> res A.
   Variable pick_min : forall X : Type, (X -> X -> bool) -> list X -> option (X * list X).
+  Variable eof : bool.
 
   Notation world := (world D).
   Notation wsorter := (wsorter K D).
   Notation w_spill := (w_spill K D lt pick_min).
   Notation w_add := (w_add A K D keyf lt enc pick_min).
-  Notation w_iter := (w_iter A K D keyf lt dec pick_min).
-  Notation w_advance := (w_advance A K D keyf dec).
-  Notation w_cursors := (w_cursors A K D keyf dec).
-  Notation w_merge := (w_merge A K D keyf lt dec pick_min).
+  Notation w_iter := (w_iter A K D keyf lt dec pick_min eof).
+  Notation w_advance := (w_advance A K D keyf dec eof).
+  Notation w_cursors := (w_cursors A K D keyf dec eof).
+  Notation w_merge := (w_merge A K D keyf lt dec pick_min eof).
   Notation w_close := (w_close K D).
   Notation w_close_loop := (w_close_loop D).
   Notation w_close_until := (w_close_until K D).
-  Notation w_step := (w_step A K D keyf lt enc dec pick_min).
-  Notation w_run := (w_run A K D keyf lt enc dec pick_min).
-  Notation w_workload := (w_workload A K D keyf lt enc dec pick_min).
+  Notation w_step := (w_step A K D keyf lt enc dec pick_min eof).
+  Notation w_run := (w_run A K D keyf lt enc dec pick_min eof).
+  Notation w_workload := (w_workload A K D keyf lt enc dec pick_min eof).
 
   Notation wpaths := (wpaths K D).
   Notation wfds := (wfds K D).
@@ -133,7 +134,7 @@ Section Facts.
     - destruct (lookup_file D id (files D w0)); intros H; inversion H; subst; simpl; rewrite ?Tf, ?Td, ?Tw; auto.
   Qed.
 
-  Lemma read_spec (w : world) r w1 : w_read D w = (r, w1) -> quiet w w1.
+  Lemma read_spec (w : world) r w1 : w_read D eof w = (r, w1) -> quiet w w1.
   Proof.
     unfold w_read, quiet, ids. destruct (tick D CRead w) as [[e |] w0] eqn:T; apply tick_same in T;
       destruct T as (Tf & Td & Tw & Tr); intros H; inversion H; subst; simpl; rewrite ?Tf, ?Td, ?Tw; auto.
@@ -263,12 +264,12 @@ Section Facts.
 
   Lemma advance_quiet h ds (w : world) r w1 : w_advance h ds w = (r, w1) -> quiet w w1.
   Proof.
-    unfold SorterWorld.w_advance. destruct (w_read D w) as [[u | x] wa] eqn:E1; apply read_spec in E1.
+    unfold SorterWorld.w_advance. destruct (w_read D eof w) as [[u | x] wa] eqn:E1; apply read_spec in E1.
     2: { intros H; inversion H; subst; exact E1. }
     destruct ds as [| d r0].
     - destruct (w_close_r D h wa) as [[u2 | x2] wb] eqn:E2; apply close_r_spec in E2; intros H; inversion H; subst;
         eapply quiet_trans; eauto.
-    - destruct (w_read D wa) as [[u2 | x2] wb] eqn:E2; apply read_spec in E2.
+    - destruct (w_read D eof wa) as [[u2 | x2] wb] eqn:E2; apply read_spec in E2.
       2: { intros H; inversion H; subst. eapply quiet_trans; eauto. }
       destruct (dec d) as [a | x3]; [| intros H; inversion H; subst; eapply quiet_trans; eauto].
       destruct (keyf a) as [k | x4]; intros H; inversion H; subst; eapply quiet_trans; eauto.
